@@ -5,6 +5,7 @@ package cluster
 import (
 	"fmt"
 	"os"
+	"path/filepath"
 	"sort"
 	"strings"
 	"sync"
@@ -51,10 +52,14 @@ type scenOp struct {
 type c01Case struct {
 	N   int      `json:"n"`
 	Ops []scenOp `json:"ops"`
+	// Snap: every node keeps a snapshot; a restarted node then comes back through
+	// the snapshot's automatic re-join (memberlist-level only, no Serf join intent)
+	// unless the op says otherwise, and its clocks are restored
+	Snap bool `json:"snap,omitempty"`
 }
 
 func genC01(t *rapid.T) c01Case {
-	c := c01Case{N: rapid.IntRange(3, 5).Draw(t, "n")}
+	c := c01Case{N: rapid.IntRange(3, 5).Draw(t, "n"), Snap: rapid.Bool().Draw(t, "snap")}
 	n := rapid.IntRange(4, 14).Draw(t, "nops")
 	kinds := []int{sStart, sStart, sLeave, sLeave, sCrash, sCrash, sPartition, sPartition, sHeal, sLoss, sUserEvent, sWait, sWait}
 	for i := 0; i < n; i++ {
@@ -299,8 +304,21 @@ func scenarioC01(c c01Case, x *scenResult) {
 		}
 	}()
 	addr := func(i int) string { return fmt.Sprintf("127.0.7.%d:7946", i+1) }
+	var snapDir string
+	if c.Snap {
+		d, err := os.MkdirTemp("", "verif-c01-")
+		if err != nil {
+			x.Inconclusive("tempdir: " + err.Error())
+			return
+		}
+		snapDir = d
+		defer os.RemoveAll(snapDir)
+	}
 	start := func(cn *cnode) bool {
 		n, err := node.New(nw, node.Opts{Name: cn.name, Addr: addr(cn.idx), EventBuf: 8192, Mutate: func(sc *serf.Config) {
+			if snapDir != "" {
+				sc.SnapshotPath = filepath.Join(snapDir, cn.name+".snap")
+			}
 			// memberlist keeps gossiping to a dead node for this long, which by itself
 			// re-merges a briefly partitioned cluster; keep it short so that longer
 			// partitions can only be healed by Serf's own reconnect logic
@@ -371,7 +389,12 @@ func scenarioC01(c c01Case, x *scenResult) {
 			if !start(a) {
 				return
 			}
-			if p := firstRunning(op.B, a); p != nil {
+			if c.Snap && a.life.Load() > 1 && op.B%2 == 0 {
+				// back through the snapshot's automatic re-join only (if that cannot
+				// reach anybody, the closing phase treats the node like any other that
+				// never joined)
+				x.Label("restart-by-snapshot-rejoin")
+			} else if p := firstRunning(op.B, a); p != nil {
 				// a join attempt that fails (partition, loss) is not a join: like the
 				// agent's retry-join, the harness repeats it once the network is healed
 				if n, err := a.n.Serf.Join([]string{p.n.Tr.Addr()}, false); err == nil && n > 0 {
